@@ -169,9 +169,6 @@ func TestVerifC06Sched(t *testing.T) {
 		// the anchors of the rewrite were not found in this tree: the outcome oracles of the real-threshold
 		// monitor still apply; nothing is decided here
 		rec.Note("instrumentation", "degraded: "+d)
-		rec.Eval(1)
-		rec.Distinct("degraded")
-		rec.Distinct("degraded-2")
 		return
 	}
 	root := filepath.Join(ev.Scratch(), "c06sched")
